@@ -188,7 +188,7 @@ def diff_complete(curve, window, part, nparts):
       if idx % nparts != part:
         continue
       for d2 in range(0, window):
-        for layout in (0, 1, 2, 3, 4):
+        for layout in (0, 1, 2, 3, 4, 5, 6):
           x1, x2 = base + d1, base + d2
           if layout == 0:
             xs, others = [x1, x2], []
@@ -199,8 +199,13 @@ def diff_complete(curve, window, part, nparts):
           elif layout == 3:
             # a far key occurs twice in front of the pair
             xs, others = [base + 5000, base + 7000, base + 5000, x1, x2], []
-          else:
+          elif layout == 4:
             xs, others = [base + 5000, base + 5000, x1, base + 7000, x2], [base + 9000]
+          elif layout == 5:
+            # the history list names one far key twice; the pair is inside the batch
+            xs, others = [x1, x2], [base + 9000, base + 9000]
+          else:
+            xs, others = [x1, base + 5000, x2], [base + 9000, base + 8000, base + 9000, x1]
           L = rec.to_lib(c, w.ec_util)
           bad = _diff_on(L, c, xs, others, md)
           r.ev('diff/%s' % ('within' if 0 < abs(d1 - d2) < md else (
@@ -214,7 +219,8 @@ def diff_complete(curve, window, part, nparts):
   r.states += 1
   r.sample({'curve': curve, 'window': window, 'max_diff': '0..64', 'layouts':
             ['two keys', 'key + history key', 'three keys + history key',
-             'duplicated far key before the pair (2 variants)']})
+             'duplicated far key before the pair (2 variants)',
+             'history list with a duplicated key (2 variants)']})
   return r
 
 
